@@ -65,6 +65,11 @@ def gen_cases(rng, tier):
             for g in ([rng.choice(gvs), rng.choice(gvs), rng.choice(gvs[-4:])] if tier == "quick" else gvs):
                 cases.append({"kind": "waxis", "n": n, "shift": shift, "gv": g, "cls": "e", "npol": 1, "noise": False,
                               "dtype": "real", "seed": 1, "dom": "-"})
+    # long records (longer than any plausible internal block size): power() only — the O(n^2) DFT model is not run on them
+    for n, cls, npol in ([(65537, "e", 1), (100003, "o", 2)] if tier == "quick" else
+                         [(65536, "e", 1), (65537, "e", 1), (70000, "o", 1), (100003, "o", 2), (131072, "o", 2), (208953, "e", 1)]):
+        cases.append({"kind": "longpower", "cls": cls, "npol": npol, "n": n, "noise": rng.random() < 0.5, "dom": "-", "shift": False,
+                      "dtype": rng.choice(["complex", "real"]), "gv": {"sps": 16, "R": 1e9}, "seed": rng.getrandbits(32), "amp": 1.0, "namp": 0.25})
     for dom in ("x", "T", "", "freq"):
         cases.append({"kind": "baddomain", "dom": dom, "n": 4, "cls": "e", "npol": 1, "noise": False, "dtype": "real",
                       "shift": False, "gv": {"sps": 16, "R": 1e9}, "seed": 3})
@@ -144,6 +149,14 @@ def run_impl(case):
                 if case["kind"] == "waxis":
                     w = x.w(case["shift"])
                     res.update(status="ok", w=[float(v) for v in w], fs=float(gv.fs))
+                elif case["kind"] == "longpower":
+                    tot = x0[0] if x0[1] is None else x0[0] + x0[1]
+                    res.update(status="ok", n=len(x), power=[float(v) for v in np.atleast_1d(x.power())],
+                               power_sig=[float(v) for v in np.atleast_1d(x.power('signal'))],
+                               power_noise=[float(v) for v in np.atleast_1d(x.power('noise'))],
+                               want=[float(v) for v in np.atleast_1d(np.mean(np.abs(tot) ** 2, axis=-1))],
+                               want_sig=[float(v) for v in np.atleast_1d(np.mean(np.abs(x0[0]) ** 2, axis=-1))],
+                               want_noise=[float(v) for v in np.atleast_1d(np.mean(np.abs(x0[1]) ** 2, axis=-1))] if x0[1] is not None else None)
                 else:
                     y = x(case["dom"], case["shift"])
                     res.update(status="ok", cls=type(y).__name__, npol=getattr(y, "n_pol", None), n=len(y),
@@ -198,6 +211,8 @@ def model_requests(case, res):
         return []
     if case["kind"] == "waxis":
         return [f"fourier.waxis {case['n']} {enc_f(res['fs'])} {enc_bool(case['shift'])}"]
+    if case["kind"] == "longpower":
+        return []
     dom = "w" if case["dom"] in ("w", "f") else "t"
     return [f"fourier.call {dom} {enc_bool(case['shift'])} {_enc_payload(res['in_sig'], res['in_noise'])}",
             f"fourier.power {_enc_payload(res['in_sig'], res['in_noise'])}"]
@@ -272,6 +287,16 @@ def oracle(case, res):
         return [("C02:raises", f"valid request failed: {res}")]
     n = case["n"]
     eps = 64 * 2.2e-16
+    if case["kind"] == "longpower":
+        for name, got, want in (("all", res["power"], res["want"]), ("signal", res["power_sig"], res["want_sig"]),
+                                ("noise", res["power_noise"], res["want_noise"])):
+            if want is None:
+                continue
+            if len(got) != len(want) or not np.all(np.abs(np.array(got) - np.array(want)) <= 1e-10 * np.maximum(1e-300, np.array(want))):
+                v.append(("C02:power", f"power('{name}') of a {n}-sample record {got} != mean|x|^2 {want}"))
+        if res["n"] != n:
+            v.append(("C02:shape", f"len() = {res['n']} for a {n}-sample record"))
+        return v
     if case["kind"] == "waxis":
         g = case["gv"]
         # the sampling rate now configured: the requested fs when one was given, else R*sps (R defaults to 1e9, sps to 16)
